@@ -7,6 +7,11 @@ Local Open Scope N_scope.
 
 Ltac Zify.zify_post_hook ::= Z.div_mod_to_equations.
 
+(* the on-disk lia/nia cache makes every call re-read a multi-megabyte file and is unsafe under
+   concurrent coqc runs in one directory *)
+#[export] Unset Lia Cache.
+#[export] Unset Nia Cache.
+
 (* ---------- bit operations as arithmetic ---------- *)
 
 Lemma shiftr_div (a : N) (n : N) : N.shiftr a n = a / 2 ^ n.
